@@ -3,6 +3,7 @@ import WmModel.GcConf
 import WmModel.GcMon
 import WmModel.GcTopicConf
 import WmModel.GcRegConf
+import WmModel.GcProdConf
 open Wm
 
 /-- `sub` streams: model = conformance with M_sub (subset construction), no property verdict of its own here;
@@ -21,6 +22,9 @@ def handle (line : String) : String :=
   | "P" :: "reg" :: _ => "ok"
   | "M" :: "topic" :: toks => GcTopicConf.checkTopic toks
   | "P" :: "topic" :: _ => "ok"
+  -- merged registry + subscription streams: conformance with the composition M_prod
+  | "M" :: "prod" :: toks => GcProdConf.checkProd toks
+  | "P" :: "prod" :: _ => "ok"
   | "M" :: "top" :: _ => "ok"
   | "P" :: "top" :: toks => GcMon.runMon GcMon.monC11 toks
   | _ => "bad-op"
